@@ -51,7 +51,10 @@ func (m MemoryCache) Get(height int64, key []byte) ([]byte, error) {
 	if m.isHeightSafeToRead(height) {
 		for i := range m.pastHeights {
 			if m.pastHeights[i].height == height {
-				return []byte(m.pastHeights[i].data[string(key)]), nil
+				if v, ok := m.pastHeights[i].data[string(key)]; ok {
+					return []byte(v), nil
+				}
+				return nil, nil
 			}
 		}
 	}
@@ -108,7 +111,7 @@ func (m MemoryCache) Commit(height int64) {
 	m.pastHeights[lowestIdx].height = m.current.height
 	m.pastHeights[lowestIdx].data = map[string]string{}
 
-	orderedKeys := make([]string, len(m.current.data))
+	orderedKeys := make([]string, 0, len(m.current.data))
 	for k, v := range m.current.data {
 		m.pastHeights[lowestIdx].data[k] = v
 		orderedKeys = append(orderedKeys, k)
